@@ -57,4 +57,9 @@ def evalAtomF (env : Nat → F64.Bits) (a : Atom) : Bool :=
 
 def evalCondF (env : Nat → F64.Bits) (c : Cond) : Bool := c.any fun conj => conj.all (evalAtomF env)
 
+/-- `fmt.Sprintf(format, args…)` from format elements `(0|1, i, _)` = argument i (already
+rendered), `(2, b, _)` = the byte b -/
+def renderG (tokens : List (Nat × Nat × Nat)) (args : List (List UInt8)) : List UInt8 :=
+  tokens.flatMap fun t => if t.1 == 2 then [UInt8.ofNat t.2.1] else args.getD t.2.1 []
+
 end FactsLib
